@@ -98,7 +98,6 @@ func verifHarness_C06_gate(kind int, n int) {
 			verifAssert(err == nil, "C06/b/correctly-signed-delivered")
 		} else {
 			verifAssert(err != nil, "C06/b/wrong-signature-refused")
-			verifAssert(rd.curReadSignatureTime == 0, "C06/b/unauthenticated-frame-leaves-no-trace")
 		}
 		if err != nil {
 			verifAssert(fr == nil, "C06/b/refused-no-frame")
